@@ -533,7 +533,7 @@ func c08Sizes(t core.Tier) (nHot, nCold, rounds, hotBlock int) {
 func init() {
 	core.Register(&core.Prop{
 		ID: "C08",
-		Rule: "one seeded call history (hot struct types synthesised with reflect.StructOf carrying independent rule sets under the tag names valid / a / b, 3 values each; patterns A-then-B and A-B-A on one type, override-then-plain, plus sweeps over 620 one-off types that push everything out of a 512-entry cache) is executed unchanged in 17 child processes that differ only in the cache installed through SetStructTypeCache " +
+		Rule: "[tag names asked for include the empty name; dump-then-validate pairs: GetDumpStructStr meets a type before the validator does] one seeded call history (hot struct types synthesised with reflect.StructOf carrying independent rule sets under the tag names valid / a / b, 3 values each; patterns A-then-B and A-B-A on one type, override-then-plain, plus sweeps over 620 one-off types that push everything out of a 512-entry cache) is executed unchanged in 17 child processes that differ only in the cache installed through SetStructTypeCache " +
 			"(default LRU, NewLRU(512/0/1/2/3/8) instrumented and NewLRU(1/2/8) bare, sync.Map, always-miss, amnesiac) or in the order of the calls (reversed, every call doubled); per call id the sorted clause list must be identical in all children. distinct = distinct (call id, configuration); non-trivial = the call returned at least one clause in the baseline",
 		Parent: parentC08,
 		Run:    runC08,
